@@ -16,9 +16,10 @@ run K and the oracle speak.  What is proved here, for ALL inputs / scripts / his
   * the per-compiler state after any history of failed compiles gives a new compile the state a fresh compiler gives.
 -/
 import Proofs.Lemmas.MofCompile
+import Proofs.Lemmas.MofParse
 
 namespace C09
-open Pywbem.Proto Pywbem.Generated Pywbem.Model.MofCompile
+open Pywbem.Proto Pywbem.Generated Pywbem.Model.MofCompile Pywbem.Model.MofParse
 open Pywbem.Model.MofLex (Str isDigit)
 
 deriving instance DecidableEq for Except
@@ -177,6 +178,86 @@ theorem C09_lexer_no_leak_fails_at : ¬ ∀ (s : Str), (lexAt s).1 ≠ .raiseVal
   intro h
   exact h (List.replicate 4301 57) (by decide +kernel)
 
+/-! ## the LALR(1) parse (tables re-extracted from the grammar through ply.yacc on every run) -/
+
+/-- the extracted action/goto/production tables of the MOF grammar are well-formed (kernel-evaluated over all 320
+    states): predecessor lists complete, no transition into state 0, `$end` never shifted, accept only on `$end`, and
+    for EVERY state and production it can reduce by: the stack is deep enough, the goto on the left-hand side is
+    defined from every state the reduction can uncover ("no stuck state"), and it leads to a state of smaller rank
+    (no cycle of reductions, in particular no ε-cycle) -/
+theorem C09_parser_tables_wellformed : mofTable.wf = true := by decide +kernel
+
+/-- the defaulted states (reduce without asking the lexer for a look-ahead) the model computes are the ones PLY
+    computed -/
+theorem C09_parser_defaulted_pinned :
+    mofDefaultedStates = (List.range mofTable.actionRows.size).filterMap
+      (fun s => (mofTable.defaulted s).map (fun v => (s, v))) := by decide +kernel
+
+/-- generic LR driver (mirror of ply.yacc.LRParser.parseopt_notrack with an error callback that raises): for EVERY
+    well-formed table and EVERY token list the parse either accepts after consuming all tokens or reports an error at a
+    definite token j — the first token that cannot be shifted: all tokens before it were shifted, and the state reached
+    (after the reductions the look-ahead allowed) has no action for it.  No other outcome: no KeyError/IndexError inside
+    the engine ("stuck"), no non-termination. -/
+theorem C09_lr_driver_total (t : LRTable) (hwf : t.wf = true) (tokens : List Nat) (hne : ∀ x ∈ tokens, x ≠ endTok) :
+    lrParse t tokens = .accept tokens.length ∨
+    ∃ j s, j ≤ tokens.length ∧ lrParse t tokens = .errorAt j s ∧ t.decide s ((tokens.drop j).headD endTok) = none := by
+  have h := lrParse_total t hwf tokens hne
+  generalize lrParse t tokens = r at h
+  cases h with
+  | accept => left; simp
+  | error j s hj hd => right; exact ⟨j, s, hj, by simp, hd⟩
+
+/-- parser_total: the same for the MOF grammar's tables, unconditionally -/
+theorem C09_parser_total (tokens : List Nat) (hne : ∀ x ∈ tokens, x ≠ endTok) :
+    lrParse mofTable tokens = .accept tokens.length ∨
+    ∃ j s, j ≤ tokens.length ∧ lrParse mofTable tokens = .errorAt j s ∧
+      mofTable.decide s ((tokens.drop j).headD endTok) = none :=
+  C09_lr_driver_total mofTable C09_parser_tables_wellformed tokens hne
+
+/-- reductions terminate: the parse loop ends by itself within (n+1)·(maxRank+1)+1 iterations — any larger amount of
+    fuel gives the same outcome -/
+theorem C09_parser_terminates (tokens : List Nat) (hne : ∀ x ∈ tokens, x ≠ endTok) (fuel : Nat)
+    (h : mofTable.fuelFor tokens.length ≤ fuel) : lrRun mofTable fuel [0] tokens 0 = lrParse mofTable tokens := by
+  have ht := lrParse_total mofTable C09_parser_tables_wellformed tokens hne
+  exact lrRun_mono' mofTable _ [0] tokens 0 ht.ne_fault.1 fuel h
+
+/-- the whole syntax analysis (lexer + LALR parse) of EVERY text ends in one of: accepted, MOFParseError at a token,
+    MOFParseError at the end of the text, or the lexer's ValueError (C09-F1) — the parse engine never faults -/
+theorem C09_parse_text_total (src : Str) : parseText src ≠ .engineFault := by
+  unfold parseText
+  simp only []
+  have ht := lrParse_total mofTable C09_parser_tables_wellformed
+    ((parserTokens (lexAll src)).map (fun t => terminalId (tokenType src t))) (tokenIds_ne_end src _)
+  unfold lrParse at ht
+  simp only [List.length_map] at ht
+  generalize lrRun mofTable _ [0] _ 0 = r at ht
+  cases ht with
+  | accept => simp only []; split <;> (intro e; cases e)
+  | error j s hj hd =>
+    simp only []
+    split
+    · intro e; cases e
+    · split <;> (intro e; cases e)
+
+/-- a syntax error reported at a token is reported at a token of the text, in a state that has no action for that
+    token, and its position (lexer line, `_find_column`) lies inside the text — for EVERY text -/
+theorem C09_parse_text_error_position (src : Str) (t : Tok) (s : Nat) (h : parseText src = .errorAtToken t s) :
+    t ∈ lexAll src ∧ 1 ≤ t.line ∧ t.line ≤ numLines src ∧ findColumn src t.pos ≤ (lineText src t.line).length := by
+  have hmem : t ∈ lexAll src := by
+    unfold parseText at h
+    simp only [] at h
+    split at h
+    · split at h <;> cases h
+    · next k st _ =>
+      split at h
+      · next t' ht' =>
+        injection h with h1 _; subst h1
+        have hm : t' ∈ parserTokens (lexAll src) := List.mem_of_getElem? ht'
+        exact (List.takeWhile_prefix _).subset hm
+      · split at h <;> cases h
+    · cases h
+  exact ⟨hmem, C09_error_position_in_text src t hmem⟩
+
 /-! ## compiler directives -/
 
 /-- directive_no_leak (namespace): for every parameter text and every `\w` classification, `#pragma namespace` either
@@ -220,6 +301,39 @@ theorem C09_compilerDirective_no_leak (w : Nat → Bool) (env : FsEnv) (file : O
   · split
     · rcases pragmaNamespace_cases w param with h | ⟨n, h, _⟩ <;> simp [h, noLeak, allowed]
     · rfl
+
+/-! ## include / dependency structure of MOF files -/
+
+/-- termination and no_leak for ANY file structure: `compileFileG` (compile_file with the nesting limit) is a total
+    function, so every structure of files that include or depend on each other — cycles, files needing themselves,
+    missing files, any fan-out — is compiled in finitely many steps; and if the individual statements raise only
+    allowed exceptions, so does the whole nested compile (this discharges the hypothesis of
+    `C09_compilerDirective_no_leak` about the nested compile: it raises OSError, MOFDependencyError, or what a
+    statement raises) -/
+theorem C09_include_structure_no_leak (fs : Files) (budget f : Nat)
+    (hleaf : ∀ g stmts, fs g = some stmts → ∀ r, Stmt.leaf r ∈ stmts → noLeak r = true) :
+    noLeak (compileFileG fs budget f) = true :=
+  compileFileG_noLeak fs hleaf budget f
+
+/-- the same for compile_string of a text with include statements -/
+theorem C09_include_unit_no_leak (fs : Files) (limit : Nat) (stmts : List Stmt)
+    (hleaf : ∀ g stmts, fs g = some stmts → ∀ r, Stmt.leaf r ∈ stmts → noLeak r = true)
+    (hl : ∀ r, Stmt.leaf r ∈ stmts → noLeak r = true) : noLeak (compileUnitG fs limit stmts) = true :=
+  compileStmts_noLeak _ (compileFileG_noLeak fs hleaf limit) stmts hl
+
+/-- a file that includes itself: with the limit MOFDependencyError for every limit … -/
+theorem C09_include_cycle_guarded (b : Nat) : compileFileG selfIncluding b 0 = .error .mofDependencyError :=
+  selfIncluding_guarded b
+
+/-- … without it (the code before the fix) no amount of fuel ends the recursion: RecursionError (was C09-F9) -/
+theorem C09_include_cycle_unguarded_diverged (fuel : Nat) : compileFileU selfIncluding fuel 0 = none :=
+  selfIncluding_unguarded fuel
+
+/-- the limit changes nothing for structures that are nested less deep than the limit: whenever the compile without
+    limit ends within `fuel` nesting levels and fuel ≤ limit, the compile with limit gives the same outcome -/
+theorem C09_nesting_limit_conservative (fs : Files) (fuel budget f : Nat) (r : Except PyExc Unit)
+    (h : compileFileU fs fuel f = some r) (hb : fuel ≤ budget) : compileFileG fs budget f = r :=
+  guard_conservative fs fuel budget f r h hb
 
 /-! ## translation of repository errors -/
 
@@ -364,11 +478,11 @@ theorem C09_embeddedValue_no_leak (truthy allStrings : Bool) (nested : Except Py
   unfold embeddedValue
   cases truthy <;> cases allStrings <;> simp [noLeak, allowed]
   cases nested with
-  | ok n => by_cases hn : n = 0 <;> simp [hn, cimObject, allowed]
+  | ok n => by_cases hn : n = 0 <;> simp [hn, cimObject]
   | error e =>
     rcases h e rfl with h | h | h | h
     · cases e <;> simp_all [cimObject, allowed]
-    all_goals (subst h; simp [cimObject, allowed])
+    all_goals (subst h; simp [cimObject])
 
 /-! ## reuse of the compiler object -/
 
@@ -409,6 +523,14 @@ example : posInside [10, 32, 64] (tokenErrorPos [10, 32, 64] ⟨.errChar, 2, 1, 
 example : pragmaNamespace isIdChar ("root/cimv2".toList.map Char.toNat) = .ok (("root/cimv2".toList.map Char.toNat)) := by decide
 example : pragmaNamespace isIdChar ("http://h/root".toList.map Char.toNat) = .error .mofParseError := by decide
 example : pragmaNamespace isIdChar ("///root".toList.map Char.toNat) = .ok (("root".toList.map Char.toNat)) := by decide
+example : lrParse mofTable (["CLASS", "IDENTIFIER", "{", "}", ";"].map terminalId) = .accept 5 := by decide +kernel
+example : lrParse mofTable (["CLASS", "IDENTIFIER", "{", "}"].map terminalId) = .errorAt 4 137 := by decide +kernel
+example : parseText ("class A { uint8 p = 5; };\n  @".toList.map Char.toNat) = .errorAtToken ⟨.errChar, 28, 1, 2⟩ 185 := by
+  decide +kernel
+example : compileFileG (fun f => if f = 0 then some [.leaf (.ok ()), .file 1] else if f = 1 then some [.file 0] else none) 50 0 =
+    .error .mofDependencyError := by decide
+example : compileFileG (fun f => if f = 0 then some [.file 1, .leaf (.error .mofParseError)] else if f = 1 then some [] else none) 50 0 =
+    .error .mofParseError := by decide
 example : mpCreateInstance (some 11) none true none = .ok () := by decide
 example : cimObject (.error .valueError : Except PyExc Unit) = .error .mofParseError := by decide
 example : embeddedValue true false (.ok 1) = .error .mofParseError := by decide
